@@ -188,8 +188,20 @@ class Session:
 
     def live_labels(self):
         live = {}
-        for oid, o, _ in self.objs:
-            for n, path in walk(o):
+        for oid, o, si in self.objs:
+            nodes = walk(o)
+            if self.profile.get("buffered"):
+                # shared-memory strategy: between leaving a nested per-object context and its next load an object holds a
+                # private copy; what it is attached to is the container in the buffer entry (its next load rebinds it)
+                entry = type(o)._buffer.get(getattr(self.stores[si], "path", None))
+                if entry is not None and isinstance(entry["contents"], (dict, list)) and entry["contents"] is not raw_data(o):
+                    def walk_shared(data, path=()):
+                        items = data.items() if isinstance(data, dict) else enumerate(data)
+                        for k, v in items:
+                            if is_synced(v):
+                                yield from walk(v, path + (k,))
+                    nodes = [(o, ())] + list(walk_shared(entry["contents"]))
+            for n, path in nodes:
                 if id(n) in self.labels:
                     live[self.labels[id(n)]] = (oid, path)
         return live
@@ -636,6 +648,13 @@ class Session:
                     lbl = self.g.r.choice(deep)
                 else:
                     lbl = self.g.r.choice(cands)
+            forced_root_op = False
+            if getattr(self, "after_blip", False):
+                self.after_blip = False
+                roots = [l for l in cands if len(live[l][1]) == 0]
+                if roots and self.g.r.random() < 0.6:
+                    lbl = self.g.r.choice(roots)         # right after a nested context: an operation on the root that does not load
+                    forced_root_op = True
             h = self.by_label[lbl]
             data = raw_data(h)
             plain = h._to_base()
@@ -644,6 +663,14 @@ class Session:
                 op = self.g.list_read(plain) if want_read else self.g.list_mut(plain, p.get("vdepth", 2))
             else:
                 op = self.g.dict_read(plain) if want_read else self.g.dict_mut(plain, p.get("vdepth", 2))
+            if forced_root_op:
+                keep = copy.deepcopy(plain)
+                if isinstance(data, list):
+                    op = ("LClear",) if self.g.r.random() < 0.3 else ("LReset", keep + [self.g.scalar(True)])
+                else:
+                    keep[self.g.key()] = self.g.scalar(True)
+                    op = ("DClear",) if self.g.r.random() < 0.3 else ("DReset", keep)
+                self.count("root-op-after-blip")
             if not isinstance(data, list) and is_attr_dict(h) and op[0] in ("DSet", "DGet", "DDel") and self.g.r.random() < 0.2:
                 op = (op[0], "_p") + tuple(op[2:])        # a key with a leading underscore that is not a protected name
             if not want_read and self.g.r.random() < p.get("invalid", 0):
